@@ -286,6 +286,19 @@ class Evaluator:
                     return getattr(base, f.attr)(*args)
                 except Exception as ex:
                     raise Unknown(f"{f.attr}: {ex}")
+        # int.from_bytes(b, order, signed=...) / n.to_bytes(length, order, signed=...)
+        if isinstance(f, ast.Attribute) and f.attr == "from_bytes" and unparse(f.value) == "int" and "int" not in self.module.assigns:
+            try:
+                return int.from_bytes(*[self.ev(a) for a in e.args], **{k.arg: self.ev(k.value) for k in e.keywords})
+            except (TypeError, ValueError) as ex:
+                raise Raised(type(ex).__name__, e)
+        if isinstance(f, ast.Attribute) and f.attr == "to_bytes":
+            base = self.ev(f.value)
+            if isinstance(base, int):
+                try:
+                    return base.to_bytes(*[self.ev(a) for a in e.args], **{k.arg: self.ev(k.value) for k in e.keywords})
+                except OverflowError:
+                    raise Raised("OverflowError", e)
         # struct.Struct objects (module-level constants such as HEADER = Struct("!BBH"))
         if isinstance(f, ast.Name) and f.id == "Struct" or unparse(f) == "struct.Struct":
             import struct as _struct
